@@ -4,6 +4,7 @@ import (
 	"fmt"
 	"go/token"
 	"go/types"
+	"runtime"
 	"sort"
 	"strings"
 
@@ -38,6 +39,7 @@ type Frame struct {
 	backEdge map[[2]*ssa.BasicBlock]bool
 	unsup    bool
 	rangeIt  map[ssa.Value]*rangeState
+	curBlock *ssa.BasicBlock
 }
 
 type loopInfo struct {
@@ -484,6 +486,7 @@ func (fr *Frame) envAt(b *ssa.BasicBlock, st *State, override map[ssa.Value]*Val
 }
 
 func (fr *Frame) execBlock(b *ssa.BasicBlock, st *State, reach *Term) {
+	fr.curBlock = b
 	for _, in := range b.Instrs {
 		if _, ok := in.(*ssa.Phi); ok {
 			continue
@@ -524,16 +527,17 @@ func (fr *Frame) execInstr(in ssa.Instruction, st *State, reach *Term) (terminat
 	c := fr.c
 	defer func() {
 		if r := recover(); r != nil {
-			if s, ok := r.(string); ok && !strings.HasPrefix(s, "runtime") {
-				fr.unsupported(in.Pos(), "%s: %s", in.String(), s)
-				if v, ok := in.(ssa.Value); ok {
-					if _, has := fr.vals[v]; !has {
-						fr.vals[v] = c.freshVal("unsup_"+v.Name(), v.Type())
-					}
-				}
-				return
+			msg := fmt.Sprint(r)
+			if _, isStr := r.(string); !isStr {
+				msg = "engine error: " + msg + " @ " + firstFrames()
 			}
-			panic(r)
+			fr.unsupported(in.Pos(), "%s: %s", in.String(), msg)
+			if v, ok := in.(ssa.Value); ok {
+				if _, has := fr.vals[v]; !has {
+					fr.vals[v] = c.freshVal("unsup_"+v.Name(), v.Type())
+				}
+			}
+			return
 		}
 	}()
 	switch i := in.(type) {
@@ -736,6 +740,23 @@ func (fr *Frame) execInstr(in ssa.Instruction, st *State, reach *Term) (terminat
 	return false
 }
 
+func firstFrames() string {
+	buf := make([]byte, 4096)
+	n := runtime.Stack(buf, false)
+	lines := strings.Split(string(buf[:n]), "\n")
+	var out []string
+	for _, l := range lines {
+		l = strings.TrimSpace(l)
+		if strings.HasPrefix(l, "/verif/govc/") {
+			out = append(out, l)
+		}
+		if len(out) >= 5 {
+			break
+		}
+	}
+	return strings.Join(out, " < ")
+}
+
 func (fr *Frame) posShort(p token.Pos) string {
 	pos := fr.fn.Prog.Fset.Position(p)
 	f := pos.Filename
@@ -913,6 +934,14 @@ func (fr *Frame) convert(at ssa.Instruction, x *Val, from, to types.Type) *Val {
 		c.sc.axiomOnce("(forall ((s Str)) (! (and (= (b2s (s2b s)) s) (= (slen (s2b s)) (len_s s))) :pattern ((s2b s))))")
 		return scalar(tApp(SSl, "s2b", x.T), to)
 	case fs == SSl && ts == SStr:
+		if et := elemType(from); et != nil {
+			if b, ok := et.Underlying().(*types.Basic); ok && b.Kind() != types.Uint8 {
+				// []rune -> string: at least one byte per rune
+				c.sc.declareFun("r2s", []Sort{SSl}, SStr)
+				c.sc.axiomOnce("(forall ((b Sl)) (! (>= (len_s (r2s b)) (slen b)) :pattern ((r2s b))))")
+				return scalar(tApp(SStr, "r2s", x.T), to)
+			}
+		}
 		c.sc.declareFun("s2b", []Sort{SStr}, SSl)
 		c.sc.declareFun("b2s", []Sort{SSl}, SStr)
 		c.sc.axiomOnce("(forall ((b Sl)) (! (= (len_s (b2s b)) (slen b)) :pattern ((b2s b))))")
@@ -1003,8 +1032,14 @@ func (fr *Frame) execTypeAssert(i *ssa.TypeAssert, st *State, reach *Term) {
 		fr.setVal(i, &Val{Typ: i.Type(), Fs: []*Val{v, scalar(ok, types.Typ[types.Bool])}})
 		return
 	}
-	c.addObl(fr, &Obligation{Kind: "safety", Site: fmt.Sprintf("typeassert@%s", fr.posShort(i.Pos())), Clause: "type assertion cannot panic: " + i.String(),
-		Guard: reach, Goal: ok})
+	widening := false
+	if _, isIface := at.Underlying().(*types.Interface); isIface && types.IsInterface(i.X.Type()) && types.AssignableTo(i.X.Type(), at) {
+		widening = true // fails only for a nil interface value: nil dereferences are outside the swept operations
+	}
+	if !widening {
+		c.addObl(fr, &Obligation{Kind: "safety", Site: fmt.Sprintf("typeassert@%s", fr.posShort(i.Pos())), Clause: "type assertion cannot panic: " + i.String(),
+			Guard: reach, Goal: ok})
+	}
 	c.sc.assert(tImp(reach, ok))
 	fr.setVal(i, v)
 }
